@@ -43,6 +43,7 @@ mod pickercmd;
 mod evalcmd;
 mod searchcmd;
 mod nodescmd;
+mod evaltermscmd;
 mod keypairs;
 mod orderingcmd;
 
@@ -77,6 +78,7 @@ fn main() {
         "eval" => evalcmd::main(rest),
         "search" => searchcmd::main(rest),
         "nodes" => nodescmd::main(rest),
+        "evalterms" => evaltermscmd::main(rest),
         "keypairs" => keypairs::main(rest),
         "ordering" => orderingcmd::main(rest),
         other => {
